@@ -235,7 +235,8 @@ func (ps *specParser) expr(minPrec int) *SExpr {
 
 func (ps *specParser) unary() *SExpr {
 	t := ps.peek()
-	if t.kind == "op" && (t.text == "!" || t.text == "-") {
+	if t.kind == "op" && (t.text == "!" || t.text == "-" || t.text == "*") {
+		// prefix "*" is a pointer dereference: *p, (*p)[k]
 		ps.next()
 		x := ps.unary()
 		return &SExpr{Kind: SUnary, Op: t.text, X: x, Pos: t.pos}
